@@ -231,7 +231,25 @@ static void run_linear_e(const Ctx& c) {
   fail("harness", "unreachable linear/inline cfg %d", cfg);
 }
 
+// a file edge type narrower than the in-memory edge type (with_file_edge_data): the uint32 data of the file
+// is converted to int64 edge data while the graph is built
+static void run_linear_widened(const Ctx& c) {
+  Ctx d   = c;
+  d.etype = ET_I64;
+  d.width = 8;
+  for (Adj* a : {&d.adj, &d.tadj})
+    for (auto& l : *a)
+      for (auto& e : l)
+        e.data = bytes_of<int64_t>((int64_t)make_val<uint32_t>(e.data));
+  label("cfg", "file-uint32-memory-int64");
+  if (c.kind == K_LINEAR)
+    return run_ptr_t<typename G::LC_Linear_Graph<uint32_t, int64_t>::with_file_edge_data<uint32_t>::type, true>(d);
+  return run_ptr_t<typename G::LC_InlineEdge_Graph<uint32_t, int64_t>::with_file_edge_data<uint32_t>::type, false>(d);
+}
+
 void run_linear(const Ctx& c) {
+  if (c.etype == ET_U32 && ((c.opts >> 3) & 3) == 3)
+    return run_linear_widened(c);
   switch (c.etype) {
   case ET_VOID:
     return run_linear_e<void>(c);
